@@ -32,7 +32,25 @@ def rand_spec(rng, depth=0, allow_gift=True):
     if kind == "plain" and depth < 2 and rng.random() < 0.2:
         # issued from inside the remote_ method, in the opposite direction (gifts stay in direction 0)
         spec["reenter"] = [rand_spec(rng, depth + 1, allow_gift=False) for _ in range(rng.choice((1, 1, 2)))]
+    if kind in CALLABLE_KINDS and "pos" not in spec and rng.random() < 0.15:
+        spec["target"] = rng.choice(TARGETS)             # addressed to a bare callable (bound method / function) of the receiver
+    if kind != "local" and depth < 2 and rng.random() < 0.12:
+        # further calls issued from inside the send-side serialization of this call's argument
+        spec["inner"] = dict(at=rng.choice(HOOKS), calls=[rand_inner(rng, depth + 1) for _ in range(rng.choice((1, 1, 2)))])
+        spec.pop("gifts", None)
     return spec
+
+
+CALLABLE_KINDS = ("plain", "slow", "gift", "abort")     # kinds that do not depend on the receiver's schema (a callable has none)
+TARGETS = ("meth", "func")
+HOOKS = ("copy", "start", "mid", "resume", "end")       # c04_impl.HOOK_POSITIONS
+
+
+def rand_inner(rng, depth):
+    sp = rand_spec(rng, depth, allow_gift=False)
+    if rng.random() < 0.15:
+        sp["rev"] = True                                 # this one goes out on the other Broker (opposite direction)
+    return sp
 
 
 def rand_chunks(rng):
@@ -246,6 +264,58 @@ def mixed_styles(rng, bursts, chunks):
     return sc
 
 
+def callable_targets(rng, k, chunks, head):
+    """calls addressed to bare callables of the receiver (a bound method, a function: RemoteMethodReference -> _doCall's
+    `methodname is None` branch) mixed with calls on the ordinary Referenceable, callRemote and callRemoteOnly; several
+    are completely received before the first one runs.  head: None, or 'gift' (the burst queues up behind a call that
+    waits for its third-party reference, itself addressed to a callable or not)"""
+    def spec(i):
+        t = (None, "meth", None, "func", "meth")[i % 5] if rng.random() < 0.7 else rng.choice((None,) + TARGETS)
+        return dict(kind=rng.choice(("plain", "plain", "plain", "slow", "gift" if head else "plain")), target=t,
+                    only=rng.random() < 0.25, stalls=rng.choice((0, 0, 0, 1)))
+    sc = []
+    if head == "gift":
+        sc += [["issue", 0, dict(kind="gift", target=rng.choice((None,) + TARGETS))]]
+    off = rng.randrange(5)
+    sc += [["issue", 0, spec(off + i)] for i in range(k)]
+    sc += [["release", 0], ["release", 0]]
+    nd = len(sc)
+    body = [["deliver", 0, chunks] for _ in range(nd)]
+    if rng.random() < 0.4:
+        body.insert(rng.randint(1, len(body)), ["turn"])
+    sc += body + [["turn"], ["turn"]]
+    if head == "gift":
+        sc += [["gift", 0, 0, rng.random() < 0.8], ["turn"], ["turn"], ["gift", 0, 0, True], ["turn"]]
+    sc += [["finish", 0, 0, rng.random() < 0.7], ["turn"], ["turn"]]
+    return sc
+
+
+def inner_issue(rng, at, stalls, k, chunks):
+    """the clause `calls issued while the sender is in the middle of streaming a large argument`, from the sender's own
+    stack: application code that runs INSIDE the serialization of a call's argument (HOOKS: a Copyable's getStateToCopy,
+    the body of a streaming slicer before its first token / between two chunks / right after a pause / as it finishes)
+    issues calls; more calls are issued from ordinary code in the same turn, while the sender is paused, and after the
+    stall was released.  Optionally the sender is already busy with an older stalled call, so that the hook runs later,
+    out of a release."""
+    n_in = rng.choice((1, 1, 2, 3))
+    def plain():
+        return dict(kind=rng.choice(("plain", "plain", "plain", "late", "slow")), only=rng.random() < 0.25,
+                    target=rng.choice((None, None, None) + TARGETS))
+    inner = [dict(plain(), stalls=rng.choice((0, 0, 0, 1))) for _ in range(n_in)]
+    sc = []
+    busy = rng.random() < 0.3
+    if busy:
+        sc += [["issue", 0, dict(kind="plain", stalls=1)]]
+    sc += [["issue", 0, dict(kind=rng.choice(("plain", "plain", "gift")), stalls=stalls, only=rng.random() < 0.2, inner=dict(at=at, calls=inner))]]
+    sc += [["issue", 0, plain()] for _ in range(k)]
+    tail = [["release", 0] for _ in range(stalls + n_in + (1 if busy else 0))] + [["issue", 0, plain()] for _ in range(rng.randint(1, 2))]
+    tail += [["turn"] for _ in range(rng.randint(0, 2))] + [["deliver", 0, chunks] for _ in range(rng.randint(0, 2))]
+    rng.shuffle(tail)
+    if rng.random() < 0.5:
+        sc += [["turn"]]                                   # what was put off by one eventual-send arrives now
+    return sc + tail
+
+
 def rejected_body_chunked(rng, k, c):
     """calls refused by the receiver's schema at token-header time (a STRING where an int is required) whose body has to
     be discarded across several small packets, between ordinary calls"""
@@ -270,6 +340,15 @@ def noisy_batch(rng, k):
     for _ in range(rng.randint(0, 3)):
         sc += [rng.choice((["noise", "raise"], ["issue", 0, dict(kind="plain")], ["turn"], ["turn"]))]
     return sc
+
+
+def all_specs(script):
+    """every call spec of a script, nested ones (reenter / inner / queued callables) included"""
+    todo = [st[2] for st in script if st[0] == "issue"] + [st[1][2] for st in script if st[0] == "noise" and isinstance(st[1], list)]
+    while todo:
+        sp = todo.pop()
+        yield sp
+        todo += list(sp.get("reenter") or []) + list((sp.get("inner") or {}).get("calls") or [])
 
 
 # ------------------------------------------------------------------ direct oracle (no model involved)
@@ -680,7 +759,9 @@ Eval vm_compute in map (fun c => and_trace (fst c) (snd c)) %s.
 def run(ctx):
     ctx.rule = ("a scenario is a script of issue (plain / method returning a Deferred that completes or errbacks later / streaming argument that pauses on 1-3 Deferreds / one or two third-party "
                 "references / schema-violating argument / unserializable argument / missing argument / locally refused; "
-                "callRemote or callRemoteOnly; optionally issuing further calls from inside the remote_ method), "
+                "callRemote or callRemoteOnly; addressed to a Referenceable or to a bare bound method / function of the receiver; optionally issuing further "
+                "calls from inside the remote_ method or from inside the send-side serialization of its own argument: getStateToCopy, the body of a "
+                "streaming slicer before / between / after its chunks and pauses), "
                 "release-stall, deliver-up-to-next-call (random chunk sizes), resolve-or-fail-one-gift, receiver-loses-connection and eventual-turn steps "
                 "on a real Broker pair in both directions; distinct = distinct script; non-trivial = at least 3 calls were "
                 "really sent in one direction and at least one of them was stalled, blocked behind a gift, refused, or "
@@ -700,6 +781,12 @@ def run(ctx):
         "as shape facts and compared with the real counters after every step",
         "the receive path (Banana.handleData, CallUnslicer) is tied by trace validation only: one model Deliver step = the "
         "bytes up to the end of the next serialized call",
+        "a call issued from inside the serialization of another call (re-entrant Broker.send under Banana.produce) is logged as an "
+        "ordinary Issue op at the moment Broker.send gets its CallSlicer; that this flat reading equals the nested one (the running "
+        "producer only enqueues, lib/Order.v issue_nested / release_nested) is a theorem (C04_reentrant_issue_is_history, "
+        "C04_reentrant_issue_after_pause_is_history), and the real sender is compared with it after every step",
+        "the kind of target (Referenceable / bound method / function) is not a model notion: Broker._doCall must invoke either kind "
+        "directly (shape fact, fail closed); calls to all three kinds are mixed in the scenarios and validated against the same model",
     ]
     ok, log = ctx.coq_build(["props/C04.vo"])
     from harness import c04_impl as impl
@@ -718,7 +805,8 @@ def run(ctx):
             impl.settle_gc()
         r = impl.run_scenario(script, loopback=loopback, knobs=knobs)
         sent = [len(r["issued"][d]) for d in (0, 1)]
-        interesting = any(k != "plain" or st for d in (0, 1) for _, k, st in r["issued"][d]) or sent[1] > 0
+        interesting = any(k != "plain" or st for d in (0, 1) for _, k, st in r["issued"][d]) or sent[1] > 0 or '"target"' in json.dumps(script) \
+            or '"inner"' in json.dumps(script)
         ctx.case([loopback, script], nontrivial=max(sent) >= 3 and interesting)
         ctx.hist("transport", "loopback" if loopback else "byte-queue")
         ctx.hist("calls_sent_dir0", min(sent[0], 20))
@@ -729,6 +817,10 @@ def run(ctx):
             for e, _ in r["events"][d]:
                 ctx.hist("event", e)
         ctx.hist("script_len", 10 * (len(script) // 10))
+        for sp in all_specs(script):
+            ctx.hist("call_target", sp.get("target") or "referenceable")
+            if sp.get("inner"):
+                ctx.hist("issued_from_inside_serialization_at", sp["inner"]["at"])
         bad = judge(r)
         # C04 says nothing about connection loss: what happens after a loss is recorded as a note, never as a violation
         # (the order / at-most-once / head-of-line oracles above have judged the same history)
@@ -808,6 +900,15 @@ def run(ctx):
         for k in range(1, ctx.n(3, 5)):
             for rep in range(ctx.n(1, 4)):
                 do("rejected-body-chunked-%d-%d-%d" % (c, k, rep), rejected_body_chunked(rng, k, c))
+    for head in (None, "gift"):
+        for k in range(2, ctx.n(5, 9)):
+            for rep in range(ctx.n(2, 8)):
+                do("callable-targets-%s-%d-%d" % (head, k, rep), callable_targets(rng, k, rand_chunks(rng), head))
+    for at in HOOKS:
+        for stalls in (0, 1, 2):
+            for rep in range(ctx.n(2, 10)):
+                do("inner-issue-%s-%d-%d" % (at, stalls, rep), inner_issue(rng, at, stalls, rng.randint(1, 4), rand_chunks(rng)),
+                   loopback=(rep % 4 == 3))
     for i in range(ctx.n(30, 300)):
         do("mixed-styles-%d" % i, mixed_styles(rng, rng.randint(1, 4), rand_chunks(rng)), loopback=(i % 3 == 2))
     for i in range(ctx.n(40, 400)):
